@@ -16,8 +16,18 @@ Holders == {"command", "cmd", "originatingCommand", "all"} \cup BadHolders
 NsRels  == {"nseq", "nsprefix", "nsother", "none", "nsnum"}
 AttrKinds == {"obj", "missing", "null", "str", "arr"}
 
+\* C07 / C03: zone slots holding the wrong kind of value, and statement / document / stage arrays whose items are bare scalars,
+\* null or arrays instead of documents (not derivable from the grammar: label "any")
+DamagedSlots == {"updatesItems", "deletesItems", "documentsItems", "pipelineItems", "uPipeItems", "filterStr", "filterArr", "sortNum",
+                 "pipelineObj", "pipelineStr", "updatesObj", "documentsStr", "qNull", "uStr"}
+RECURSIVE AnyLab(_)
+AnyLab(v) == CASE v.t = "obj" -> Obj([i \in 1..Len(v.kv) |-> <<v.kv[i][1], AnyLab(v.kv[i][2])>>])
+               [] v.t = "arr" -> Arr([i \in 1..Len(v.it) |-> AnyLab(v.it[i])])
+               [] OTHER       -> [v EXCEPT !.lab = IF @ = "ref" THEN "ref" ELSE "any"]
+Items(t) == Arr(<<Leaf("plain", "any"), Leaf("num", "any"), Null("any"), Arr(<<Leaf("num", "any"), Leaf("plain", "any")>>), Leaf("bool", "any"), t>>)
+
 Slots == {"filter", "query", "sort", "q", "u", "update", "updatePipe", "updates", "deletes", "documents", "documentsNoInsert",
-          "pipeline", "uPipe", "other"}
+          "pipeline", "uPipe", "other"} \cup DamagedSlots
 
 \* shallow zone content: a field with a literal, an operator over a literal, an array of literals, a nested document
 Contents == {"field", "op", "arr", "nested", "ref", "numbool"}
@@ -47,9 +57,23 @@ CmdFor(s, t) ==
     [] s = "documentsNoInsert" -> Cmd("find", "documents", Arr(<<t>>))
     [] s = "pipeline"  -> Cmd("aggregate", "pipeline", Arr(<<MatchStage(t), SetStage(t)>>))
     [] s = "other"     -> Cmd("find", "projection", t)
+    [] s = "updatesItems"   -> Cmd("update", "updates", Items(t))
+    [] s = "deletesItems"   -> Cmd("delete", "deletes", Items(t))
+    [] s = "documentsItems" -> Cmd("insert", "documents", Items(t))
+    [] s = "pipelineItems"  -> Cmd("aggregate", "pipeline", Items(MatchStage(t)))
+    [] s = "uPipeItems"     -> Cmd("update", "u", Items(SetStage(t)))
+    [] s = "filterStr"      -> Cmd("find", "filter", Leaf("plain", "any"))
+    [] s = "filterArr"      -> Cmd("find", "filter", Arr(<<t>>))
+    [] s = "sortNum"        -> Cmd("find", "sort", Leaf("num", "any"))
+    [] s = "pipelineObj"    -> Cmd("aggregate", "pipeline", MatchStage(t))
+    [] s = "pipelineStr"    -> Cmd("aggregate", "pipeline", Leaf("plain", "any"))
+    [] s = "updatesObj"     -> Cmd("update", "updates", Obj(<< <<"q", t>> >>))
+    [] s = "documentsStr"   -> Cmd("insert", "documents", Leaf("plain", "any"))
+    [] s = "qNull"          -> Cmd("delete", "q", Null("any"))
+    [] s = "uStr"           -> Cmd("update", "u", Leaf("plain", "any"))
 
 CaseLine(ak) ==
-  LET doc == CmdFor(slot, ContentTree(content)) IN
+  LET doc == CmdFor(slot, IF slot \in DamagedSlots THEN AnyLab(ContentTree(content)) ELSE ContentTree(content)) IN
   CASE ak = "obj"     -> Line(env, doc)
     [] ak = "missing" -> LineWith(env, Null("env"), FALSE)
     [] ak = "null"    -> LineWith(env, Null("env"), TRUE)
